@@ -22,6 +22,14 @@ fn main() {
     let mut t = trace::Tracer::new(&out);
     match cmd.as_str() {
         "epoch" => drivers::epoch::run(&mut rng, thorough, &mut t),
+        "farm" => drivers::farm::run(&mut rng, thorough, &mut t),
+        "farm_replay" => drivers::farm_replay::run(
+            &arg("--behaviours").expect("--behaviours"),
+            arg("--rate").map(|s| s.parse().unwrap()).unwrap_or(1000),
+            arg("--fstart").map(|s| s.parse().unwrap()).unwrap_or(1),
+            arg("--fend").map(|s| s.parse().unwrap()).unwrap_or(5),
+            &mut t,
+        ),
         _ => {
             eprintln!("usage: vh <driver> [--seed N] [--tier quick|thorough] [--out path]");
             std::process::exit(2);
